@@ -445,6 +445,8 @@ type pools struct {
 	holed2A, holed2B []*shp
 	// >= 16-position inner shapes x outers with notches / slots / holes
 	bigOuter, bigInner []*shp
+	// rings with 40-100 vertices (and densified to >= 64 positions, and as holes) x coarse-grid partners
+	bigRing, bigPartner []*shp
 	desc             map[string]any
 }
 
@@ -475,6 +477,9 @@ func buildPools(thorough bool) *pools {
 	p.hPolys = append(p.hPolys, poolPolys(3, 0, 4, idxCfgs[2].Opts)...)
 	p.holed2A, p.holed2B = poolHoled2(idxCfgs[2].Opts)
 	p.bigOuter, p.bigInner = poolBigInner(idxCfgs[2].Opts)
+	p.bigRing, p.bigPartner = bigRingShapes(idxCfgs[2].Opts), bigRingPartners()
+	p.desc["rings_with_40_to_100_vertices"] = len(p.bigRing)
+	p.desc["big_ring_partners"] = len(p.bigPartner)
 	p.desc["outers_for_16_position_inners"] = len(p.bigOuter)
 	p.desc["inners_with_16_positions"] = len(p.bigInner)
 	p.desc["two_hole_polys"] = len(p.holed2A)
@@ -504,7 +509,7 @@ func forPairs(r *rt.Run, as, bs []*shp, same bool, fn func(a, b *shp, w *rt.Work
 
 // allPairs runs fn on every kind combination of the tier's pools.
 func allPairs(r *rt.Run, p *pools, fn func(a, b *shp, w *rt.Worker)) {
-	for _, pl := range [][]*shp{p.points, p.rects, p.lines, p.polys, p.holed, p.holed2A, p.holed2B, p.bigOuter, p.bigInner} {
+	for _, pl := range [][]*shp{p.points, p.rects, p.lines, p.polys, p.holed, p.holed2A, p.holed2B, p.bigOuter, p.bigInner, p.bigRing, p.bigPartner} {
 		r.States.Add(int64(2 * len(pl)))
 		for _, s := range pl {
 			r.Trans.Add(int64(len(s.E.Skeleton())))
@@ -528,4 +533,7 @@ func allPairs(r *rt.Run, p *pools, fn func(a, b *shp, w *rt.Worker)) {
 	forPairs(r, p.holed2A, p.holed2A, true, fn)
 	forPairs(r, p.bigOuter, p.bigInner, false, fn)
 	forPairs(r, p.bigInner, p.bigInner, true, fn)
+	forPairs(r, p.bigRing, p.bigPartner, false, fn)
+	forPairs(r, p.bigRing, p.bigInner, false, fn)
+	forPairs(r, p.bigRing, p.bigRing, true, fn)
 }
